@@ -53,6 +53,11 @@ def Rz(t):
     return np.array([[math.cos(t), -math.sin(t), 0], [math.sin(t), math.cos(t), 0], [0, 0, 1.0]])
 
 
+def Ry(t):
+    import numpy as np
+    return np.array([[math.cos(t), 0, math.sin(t)], [0, 1.0, 0], [-math.sin(t), 0, math.cos(t)]])
+
+
 def Rx(t):
     import numpy as np
     return np.array([[1.0, 0, 0], [0, math.cos(t), -math.sin(t)], [0, math.sin(t), math.cos(t)]])
@@ -118,6 +123,14 @@ def make_cases(rng, tier):
 
 
 def worker(x):
+    """every fourth case runs with the input checks switched off (euler cases excepted: they toggle the switch themselves)"""
+    off = x["den"] % 4 == 1 and x["cs"]["kind"] != "euler"
+    with L.switch_off(off):
+        n, out = _worker(x)
+    return n, ([o + " [input checks switched off]" for o in out] if off else out)
+
+
+def _worker(x):
     """compare the real builders / inverses with the exact matrix of one case"""
     import importlib
     import numpy as np
@@ -307,6 +320,31 @@ def run(tier, seed):
         v.case(repr(x["cs"]), sample={"case": x["cs"], "den": x["den"]} if kinds[k] == 3 else None)
         for o in out[:2]:
             v.violation(o, {"case": x["cs"], "N": x["N"], "den": x["den"]})
+    # angles given as Python or numpy integers (0, 1, 2, 3, -1 radians; whole degrees for the quaternion builder): same matrices as for floats
+    import importlib
+    import numpy as np
+    for modname in ("tools", "laue"):
+        mod = importlib.import_module("xfab." + modname)
+        for k_ in (0, 1, 2, 3, -1, np.int64(2), np.int32(-2)):
+            for nm_, got_fn, want_ in (
+                    ("form_omega_mat(%r)" % (k_,), lambda: mod.form_omega_mat(k_), Rz(float(k_))),
+                    ("form_omega_mat_general(%r, 1, -1)" % (k_,), lambda: mod.form_omega_mat_general(k_, 1, -1),
+                     Rx(1.0).dot(Ry(-1.0)).dot(Rz(float(k_)))),
+                    ("detect_tilt(1, %r, 2)" % (k_,), lambda: mod.detect_tilt(1, k_, 2), Rx(1.0).dot(Ry(float(k_))).dot(Rz(2.0))),
+                    ("euler_to_u(%r, 1, 2)" % (abs(int(k_)),), lambda: mod.euler_to_u(abs(int(k_)), 1, 2), Rz(float(abs(int(k_)))).dot(Rx(1.0)).dot(Rz(2.0))),
+                    ("quart_to_omega(%r, 0, 0)" % (int(k_) * 30,), lambda: mod.quart_to_omega(int(k_) * 30, 0, 0), Rz(math.radians(int(k_) * 30))),
+                    ("rod_to_u([%r, 0, 1])" % (k_,), lambda: mod.rod_to_u([k_, 0, 1]), None)):
+                ncalls_ = 1
+                try:
+                    got_ = np.asarray(got_fn(), dtype=float)
+                    if want_ is None:
+                        want_ = np.asarray(mod.rod_to_u([float(k_), 0.0, 1.0]), dtype=float)
+                    v.case(("int", modname, nm_))
+                    if got_.shape != (3, 3) or np.abs(got_ - want_).max() > 1e-12:
+                        v.violation("xfab.%s.%s with integer-typed arguments differs from the same call with floats by %.3g" %
+                                    (modname, nm_, float(np.abs(got_ - want_).max()) if got_.shape == (3, 3) else -1), {"call": nm_, "module": modname})
+                except Exception as ex_:
+                    v.violation("xfab.%s.%s raised %r for integer-typed arguments" % (modname, nm_, ex_), {"call": nm_, "module": modname})
     hts = []
     for size in (3e4, 1e5, 1e6, 1e7, 6e7):
         for _ in range(6 if tier == "quick" else 80):
